@@ -208,7 +208,7 @@ def c_forward_step(lib, mt, d, st, qacc_x=None):
         if lib.mj_isSparse(mt):
             Jc = dense(d.efc_J_rownnz, d.efc_J_rowadr, d.efc_J_colind, np.array(d.efc_J), nefc, nv)
         else:
-            Jc = np.array(d.efc_J, float).reshape(nefc, nv).copy()
+            Jc = np.array(d.efc_J, float)[:nefc * nv].reshape(nefc, nv).copy()   # nJ is an upper bound in dense mode
     else:
         Jc = np.zeros((0, nv))
     r["efc_J"] = Jc
